@@ -13,27 +13,36 @@ chk.assumptions = [
 ]
 inj = {"internal/crosscompile/zz_verif_c20_test.go": os.path.join(core.V, "inpkg", "c20_extract_test.go")}
 extra = {}
-for k in ("VERIF_C20_ONLY", "VERIF_C20_WORKERS"):
+for k in ("VERIF_C20_ONLY", "VERIF_C20_WORKERS", "VERIF_C20_STAGES"):
     if os.environ.get(k):
         extra[k] = os.environ[k]
-rc, out, rep, races, race_text = inpkg.run_inpkg(chk, inj, "./internal/crosscompile", "^TestVerifC20$", race=True,
-                                                 timeout=3000 if chk.tier == "thorough" else 560, extra_env=extra)
-# the race detector makes `go test` exit 66 even when the monitor recorded nothing; races are judged below
-if rep is not None and rc != 0 and not rep.get("failures") and races > 0:
-    rc = 0
-inpkg.absorb(chk, rep, out, rc, "c20")
+thorough = chk.tier == "thorough"
 
-# ---- race detector reports: a report with a frame in a non-test file of internal/crosscompile is a violation
-chk.cov["race_reports"] = races
-if races:
-    reports = [r for r in race_text.split("==================") if "WARNING: DATA RACE" in r]
-    mine, theirs = [], []
-    for r in reports:
-        frames = re.findall(r"^\s+(/\S+\.go):\d+", r, re.M)
-        inrepo = [f for f in frames if "/internal/crosscompile/" in f and not f.endswith("_test.go")]
-        (theirs if inrepo else mine).append(r)
-    for i, r in enumerate(theirs[:4]):
-        chk.violation("race-%d" % i, {"race.txt": r}, "[race:crosscompile] Go race detector: DATA RACE with a frame inside internal/crosscompile\n" + r[:1200])
-    if mine and not theirs:
-        core.broken("C20: the race detector reported a race that has no frame in internal/crosscompile sources (monitor bug):\n" + mine[0][:3000])
+# Part 1 (fixed probes = complete class x format x content matrix first, then random archives); no -race:
+# the extract functions are sequential and the race runtime makes archive building ~30x slower.
+rc, out, rep, _, _ = inpkg.run_inpkg(chk, inj, "./internal/crosscompile", "^TestVerifC20Extract$", race=False,
+                                     timeout=2400 if thorough else 500, extra_env=extra)
+inpkg.absorb(chk, rep, out, rc, "extract")
+
+# Part 2: lock hand-over probe + concurrent requests, under the race detector.
+if not os.environ.get("VERIF_C20_ONLY"):
+    rc, out, rep, races, race_text = inpkg.run_inpkg(chk, inj, "./internal/crosscompile", "^TestVerifC20Conc$", race=True,
+                                                     timeout=2400 if thorough else 500, extra_env=extra)
+    # the race detector makes the test binary exit 66 even when the monitor recorded nothing; races are judged below
+    if rep is not None and rc != 0 and not rep.get("failures") and races > 0:
+        rc = 0
+    inpkg.absorb(chk, rep, out, rc, "conc")
+    # a report with a frame in a non-test source file of internal/crosscompile is a violation
+    chk.cov["race_reports"] = races
+    if races:
+        reports = [r for r in race_text.split("==================") if "WARNING: DATA RACE" in r]
+        mine, theirs = [], []
+        for r in reports:
+            frames = re.findall(r"^\s+(/\S+\.go):\d+", r, re.M)
+            inrepo = [f for f in frames if "/internal/crosscompile/" in f and not f.endswith("_test.go")]
+            (theirs if inrepo else mine).append(r)
+        for i, r in enumerate(theirs[:4]):
+            chk.violation("race-%d" % i, {"race.txt": r}, "[race:crosscompile] Go race detector: DATA RACE with a frame inside internal/crosscompile\n" + r[:1200])
+        if mine and not theirs:
+            core.broken("C20: the race detector reported a race that has no frame in internal/crosscompile sources (monitor bug):\n" + mine[0][:3000])
 chk.finish(floor_eval=900, floor_distinct=300)
